@@ -473,7 +473,7 @@ impl Property for Man {
     fn budget(&self, tier: Tier) -> Budget {
         Budget {
             cases: tier.pick(300_000, 10_000_000),
-            tape_len: 900,
+            tape_len: 5000,
         }
     }
     fn decode(&self, t: &mut Tape<'_>) -> ManCase {
